@@ -48,6 +48,7 @@ type muxPeer struct {
 	inbox    [][]byte
 	stop     bool
 	setups   int
+	ps       int // the packet size in force
 	wantSet  int // unknown-channel packets are only sent once so many channels were set up
 	unknown  int // budget of packets for channels that do not exist
 	sentUnk  int
@@ -115,7 +116,14 @@ func (p *muxPeer) handle() {
 				if h.channel == 0 && len(msg) == 2 && msg[0] == byte(tds.TDS_LOGOUT) {
 					c.logout = true
 				} else {
-					pkts := responsePackets(p.g, h.channel, []int{3, 10, 30, 200}[p.g.Rng.Intn(4)], false)
+					var pre []core.Item
+					if p.g.Rng.Intn(3) == 0 {
+						// the server (re)announces the packet size in force while other channels are sending: the reader
+						// goroutine stores it, the senders load it
+						b := packSizePacket(h.channel, p.ps)[8:]
+						pre = []core.Item{{Tok: int(b[0]), Body: b[1:]}}
+					}
+					pkts := responsePackets(p.g, h.channel, []int{3, 10, 30, 200}[p.g.Rng.Intn(4)], false, pre...)
 					c.script = append(c.script, pkts...)
 					c.pending = append(c.pending, pkts...)
 				}
@@ -223,6 +231,7 @@ func runConcurrent(out caser, g *pk.Gen, c concCfg) {
 	e := newEnv(100000, true)
 	peer := newMuxPeer(e.pc, g, c.g, c.unknown)
 	ps := e.conn.PacketSize()
+	peer.ps = ps
 	ws := make([]*concWorker, c.g)
 	for i := range ws {
 		ws[i] = &concWorker{rng: sx.NewRng(g.Rng.U64()), nmsgs: g.Rng.Range(0, c.nmsgs), id: -1}
